@@ -74,6 +74,12 @@ def check(ctx):
             'let s = str `enum: [x, y, z]`;\nres /e on get -> <{ \'k s `enum: [y, w, x]` }>;\n',
             "let tree t = rec x { 'v t, 'kids [x] };\nres /ints on get -> <tree int>;\nres /strs on get -> <tree str>;\n",
             'let @a = { \'p num } `examples: { one: "1.json", two: "2.json", three: "3.json" }`;\nres /r on get -> <@a>;\n',
+            # several not yet evaluated references passed to one function: the order in which arguments are evaluated reaches
+            # the order of the components and the names of the implicit ones
+            "let quad a b c d = { 'a a, 'b b, 'c c, 'd d };\nlet @first = { 'k num };\nlet @second = { 'k str };\nlet @third = { 'k bool };\nlet @fourth = { 'k int };\n"
+            "res /quads on get -> <quad @first @second @third @fourth>;\n",
+            "let five a b c d e = [a ~ b ~ c ~ d ~ e];\nres /recs on get -> <five (rec p { 'p [p] }) (rec q { 'q [q] }) (rec r { 'r [r] }) (rec s { 's [s] }) (rec t { 't [t] })>;\n",
+            "let pair x y = { 'l x, 'r y };\nlet @m = { 'm num };\nlet @n = { 'n num };\nlet @o = { 'o num };\nres /p on get -> <pair (pair @m @n) (pair @o (rec z [z]))>;\n",
             # formats whose natural sample values come from the clock, the host or a random source
             'let @event = { \'created! str `format: date-time`, \'day str `format: date`, \'at str `format: time`, \'id str `format: uuid`,\n'
             '  \'host str `format: hostname`, \'ip str `format: ipv4`, \'secret str `format: password`, \'n int `format: int64` };\n'
